@@ -176,6 +176,53 @@ Variable chash : cell -> res bytes.
 Variable sign : SK -> bytes -> bits.
 Hypothesis sig_len : forall sk m, length (sign sk m) = 512%nat.
 
+(* the body decoder of a version (what Decode<version>Message applies to the
+   body found in the envelope) *)
+Definition decode_body (v : version) (b : cell) : res decoded :=
+  match v with
+  | V5Beta => decode_v5beta b | V5R1 => decode_v5r1 b
+  | V4R1 | V4R2 => decode_v4 b | V3R1 | V3R2 | V3R2Lockup => decode_v3 b
+  | HLV2R2 => decode_hl b | _ => Err EWallet
+  end.
+
+Lemma decode_msg_body v m :
+  sendable v -> decode_msg chash v m = (do e <- parse_ext chash m; decode_body v (e_body e)).
+Proof. intros [E|[E|[E|[E|[E|[E|E]]]]]]; rewrite E; reflexivity. Qed.
+
+(* every built body decodes to what was requested, whatever envelope carries it *)
+Theorem built_body_decodes w sk seqno valid ms rnd body :
+  modes_ok ms -> sendable (w_ver w) -> (seqno < 4294967296)%N ->
+  create_body SK chash sign w sk ms seqno valid op_signed_external rnd = Ok body ->
+  exists d,
+    decode_body (w_ver w) body = Ok d /\
+    d_msgs d = ms /\ d_id d = expected_id w /\ d_valid d = unix32 valid /\
+    (w_ver w <> HLV2R2 -> d_seqno d = seqno) /\
+    (w_ver w = HLV2R2 -> d_extra d = (rnd mod 4294967296)%N).
+Proof.
+  intros Hm Hs Hq Hb.
+  destruct (create_body_shape SK chash sign _ _ _ _ _ _ _ _ Hb) as (u & hu & Hu & Eu & Hh & Eb & _ & _).
+  unfold Wallet.unsigned_body in Hu. unfold expected_id, decode_body.
+  destruct Hs as [E|[E|[E|[E|[E|[E|E]]]]]]; rewrite E in *; cbn [sig_appended] in Eb; subst body.
+  - rewrite (decode_v3_built _ _ _ _ (fit 512 (sign sk hu)) u Hm (fit_len _ _) Hq Hu).
+    eexists. repeat split; try reflexivity; congruence.
+  - rewrite (decode_v3_built _ _ _ _ (fit 512 (sign sk hu)) u Hm (fit_len _ _) Hq Hu).
+    eexists. repeat split; try reflexivity; congruence.
+  - rewrite (decode_v4_built _ _ _ _ (fit 512 (sign sk hu)) u Hm (fit_len _ _) Hq Hu).
+    eexists. repeat split; try reflexivity; congruence.
+  - rewrite (decode_v4_built _ _ _ _ (fit 512 (sign sk hu)) u Hm (fit_len _ _) Hq Hu).
+    eexists. repeat split; try reflexivity; congruence.
+  - apply bind_ok in Hu. destruct Hu as (a & Hac & Hu). apply mk_ok in Hu. destruct Hu as (-> & _).
+    cbn [cdata crefs ocell] in *.
+    rewrite (decode_v5beta_built (w_net w) (w_wc w) (w_sub w) valid seqno ms (sign sk hu) a Hm (sig_len _ _) Hq Hac).
+    eexists. repeat split; try reflexivity; congruence.
+  - apply bind_ok in Hu. destruct Hu as (a & Hac & Hu). apply mk_ok in Hu. destruct Hu as (-> & _).
+    cbn [cdata crefs ocell] in *.
+    rewrite (decode_v5r1_built (w_wid w) valid seqno ms (sign sk hu) a Hm (sig_len _ _) Hq Hac).
+    eexists. repeat split; try reflexivity; congruence.
+  - rewrite (decode_hl_built _ _ _ _ (fit 512 (sign sk hu)) u Hm (fit_len _ _) Hu).
+    eexists. repeat split; try reflexivity; congruence.
+Qed.
+
 Theorem extract_roundtrip w sk wc addr seqno valid ms init rnd h e :
   modes_ok ms -> length addr = 256%nat -> init_ok chash init -> sendable (w_ver w) ->
   (seqno < 4294967296)%N ->
@@ -189,36 +236,10 @@ Theorem extract_roundtrip w sk wc addr seqno valid ms init rnd h e :
 Proof.
   intros Hm Ha Hi Hs Hq H.
   destruct (raw_send_parse SK chash sign _ _ _ _ _ _ _ _ _ _ _ Ha Hi H) as (body & Hb & Hmax & _ & _ & Hp).
-  destruct (create_body_shape SK chash sign _ _ _ _ _ _ _ _ Hb) as (u & hu & Hu & Eu & Hh & Eb & _ & _).
-  assert (D : forall d, (match w_ver w with
-                         | V5Beta => decode_v5beta body | V5R1 => decode_v5r1 body
-                         | V4R1 | V4R2 => decode_v4 body | V3R1 | V3R2 => decode_v3 body
-                         | HLV2R2 => decode_hl body | _ => Err EWallet end) = Ok d ->
-            decode_msg chash (w_ver w) e = Ok d /\ extract_raw chash (w_ver w) e = Ok (d_msgs d)).
-  { intros d Hd. unfold extract_raw.
-    assert (E : decode_msg chash (w_ver w) e = Ok d).
-    { unfold decode_msg. destruct Hs as [E|[E|[E|[E|[E|[E|E]]]]]]; rewrite E in *; rewrite Hp; exact Hd. }
-    rewrite E. split; reflexivity. }
-  unfold Wallet.unsigned_body in Hu. unfold expected_id.
-  destruct Hs as [E|[E|[E|[E|[E|[E|E]]]]]]; rewrite E in *; cbn [sig_appended] in Eb; subst body.
-  - pose proof (decode_v3_built _ _ _ _ (fit 512 (sign sk hu)) u Hm (fit_len _ _) Hq Hu) as Hd.
-    destruct (D _ Hd) as (D1 & D2). eexists. repeat split; try eassumption; try reflexivity; congruence.
-  - pose proof (decode_v3_built _ _ _ _ (fit 512 (sign sk hu)) u Hm (fit_len _ _) Hq Hu) as Hd.
-    destruct (D _ Hd) as (D1 & D2). eexists. repeat split; try eassumption; try reflexivity; congruence.
-  - pose proof (decode_v4_built _ _ _ _ (fit 512 (sign sk hu)) u Hm (fit_len _ _) Hq Hu) as Hd.
-    destruct (D _ Hd) as (D1 & D2). eexists. repeat split; try eassumption; try reflexivity; congruence.
-  - pose proof (decode_v4_built _ _ _ _ (fit 512 (sign sk hu)) u Hm (fit_len _ _) Hq Hu) as Hd.
-    destruct (D _ Hd) as (D1 & D2). eexists. repeat split; try eassumption; try reflexivity; congruence.
-  - apply bind_ok in Hu. destruct Hu as (a & Hac & Hu). apply mk_ok in Hu. destruct Hu as (-> & _).
-    cbn [cdata crefs ocell] in *.
-    pose proof (decode_v5beta_built (w_net w) (w_wc w) (w_sub w) valid seqno ms (sign sk hu) a Hm (sig_len _ _) Hq Hac) as Hd.
-    destruct (D _ Hd) as (D1 & D2). eexists. repeat split; try eassumption; try reflexivity; congruence.
-  - apply bind_ok in Hu. destruct Hu as (a & Hac & Hu). apply mk_ok in Hu. destruct Hu as (-> & _).
-    cbn [cdata crefs ocell] in *.
-    pose proof (decode_v5r1_built (w_wid w) valid seqno ms (sign sk hu) a Hm (sig_len _ _) Hq Hac) as Hd.
-    destruct (D _ Hd) as (D1 & D2). eexists. repeat split; try eassumption; try reflexivity; congruence.
-  - pose proof (decode_hl_built _ _ _ _ (fit 512 (sign sk hu)) u Hm (fit_len _ _) Hu) as Hd.
-    destruct (D _ Hd) as (D1 & D2). eexists. repeat split; try eassumption; try reflexivity; congruence.
+  destruct (built_body_decodes _ _ _ _ _ _ _ Hm Hs Hq Hb) as (d & Hd & D1 & D2 & D3 & D4 & D5).
+  assert (E : decode_msg chash (w_ver w) e = Ok d).
+  { rewrite (decode_msg_body _ _ Hs), Hp. exact Hd. }
+  exists d. unfold extract_raw. rewrite E. cbn [bind]. rewrite D1. auto 10.
 Qed.
 
 End RT.
